@@ -42,6 +42,18 @@ def tasks(tier, seed):
             ts.append({"kind": "algo", "label": "dev/%s/%s" % (lab, base), "cfg": cfg, "mode": "dev", "T": 100,
                        "R": [-1.0, 1.0] if wrapper else list(configs.R3), "base": base, "k": 1 if (tier == "quick" or wrapper) else 2,
                        "max_exec": 2500 if tier == "quick" else 30000, "cost": 10})
+    # StroquOOL with a budget large enough for two validation candidates (n=200: h_max=2, p_max=1): the whole schedule
+    # (exploration + validation of both candidates) fits in 17 rounds
+    for part, K, box in (("Binary", None, "u1"), ("DimensionBinary", None, "u2")):
+        cfg = configs.cfg("StroquOOL", part, K, configs.BOXES[box], n=200)
+        ts.append({"kind": "algo", "label": "full/StroquOOL200/%s" % part, "cfg": cfg, "mode": "full", "T": 17 if tier == "thorough" else 16,
+                   "R": [-1.0, -0.5], "cost": 30})
+        for base in ("negpeak", "neg", "twopeak"):
+            ts.append({"kind": "algo", "label": "dev/StroquOOL200/%s/%s" % (part, base), "cfg": cfg, "mode": "dev", "T": 20,
+                       "R": list(configs.R3n), "base": base, "k": 2, "cost": 5})
+    cfg = configs.cfg("StroquOOL", "Binary", None, configs.BOXES["u1"], n=1000)
+    ts.append({"kind": "algo", "label": "dev/StroquOOL1000/negpeak", "cfg": cfg, "mode": "dev", "T": 120, "R": list(configs.R3n), "base": "negpeak",
+               "k": 1, "cost": 10})
     return ts
 
 
